@@ -9,6 +9,27 @@ KERNEL_NOTE = ('real instead of float arithmetic; decimal literals within 5e-14;
                '.so cannot be rebuilt here (no Cython) so the verdict is about the source tree, binary replays are attached where they reproduce')
 
 CHECKS = {
+ 'C09': dict(
+    category='proof',
+    text=('_solver_NR is executed symbolically from the real source with uninterpreted user callables; the load-step, iteration and bisection loops '
+          'carry inductive invariants (inc>0, total-inc == last reported factor, total<=1, not-converged at the iteration loop head) that z3 proves '
+          'initially and across every path of the loop bodies (all interleavings of converged / diverged / too-slow / iteration-limit outcomes, '
+          'modified and full Newton, line search on/off). At every report the obligations max|fext(t)-fint(c,t)|<absTOL for exactly the appended pair, '
+          't strictly greater than the previous report and in (0,1], the state being a fresh copy never updated in place afterwards, are discharged; '
+          'Analysis.static dispatch is checked the same way.'),
+    design_ref='DESIGN.md section 4 (C09)',
+    note=('real arithmetic; callables pure; numpy scalar division does not raise; the line-search loop is over-approximated by havoc; termination and the '
+          'linear-problem clause are NOT proved (bounded run-time contract grid on the real driver stands in, labelled bounded); 4 known findings '
+          '(last load factor within 1e-3 of 1 instead of equal to 1)'),
+    technique='loop invariants on the real ast, havoc-and-assume VC generation, z3 (QF_LRA/NRA)'),
+ 'C19': dict(
+    category='proof',
+    text=('fkAx/fkAy/fcA of the flat, w-only and cylindrical kernels proved entry-wise against the piston-theory bilinear forms (symbolic indices and inputs); '
+          'the integration-by-parts lemma that turns the code form into the statement form and yields skew-symmetry / zero diagonal with w restrained on the '
+          'flow edges is proved exhaustively over the 900 table pairs; Panel.calc_kA (Mach-route formulas, flow dispatch, completion) and calc_cA are '
+          'executed symbolically with argument and structure obligations.'),
+    design_ref='DESIGN.md section 4 (C19)', note=KERNEL_NOTE + '; StiffPanelBay.calc_kA delegation not yet under contract; 8 known findings (curvature part completed skew-symmetrically)',
+    technique='contracts on kernels and Python methods; symbolic execution; exact normal form + z3'),
  'C02': dict(
     category='proof',
     text=('fk0 and fk0y1y2 of the plate, w-only plate, cylindrical and conical kernels are extracted mechanically from the .pyx on every run and '
